@@ -90,6 +90,7 @@ static int pw_exact(const char *pw, const char *want, size_t wl, struct res *r, 
 /* every ASCII byte (control characters included) alone, embedded, and every ordered pair: ASCII is its own NFKD */
 static void password_alphabet(struct res *r) {
     char pw[8];
+    pw_exact("", "", 0, r, "c12:password-bytes", "the empty password");
     for (int b = 1; b < 128; b++) {
         pw[0] = (char)b; pw[1] = 0; pw_exact(pw, pw, 1, r, "c12:password-bytes", "one-byte password");
         pw[0] = 'x'; pw[1] = (char)b; pw[2] = 'y'; pw[3] = 0; pw_exact(pw, pw, 3, r, "c12:password-bytes", "ASCII byte between two letters");
